@@ -12,7 +12,7 @@ from ..engine import Space
 PROPERTY = "C18"
 LEVEL = "model_checking"
 VARIANTS = ["asan"]
-RULE = ("all histories of <=2 (quick) / <=3 (thorough) calls over 24 call kinds after create(full, 50 ms limit) on one instance, with a status "
+RULE = ("all histories of <=2 (quick) / <=3 (thorough) calls over 26 call kinds after create(full, 50 ms limit) on one instance, with a status "
         "probe after every call; two-instance interleavings of 2 calls each; creation variants (full/basic/empty); invalid handles (NULL, foreign "
         "memory, destroyed); states = (globals set, config loaded, instance age) contexts reached, transitions = API calls; non-trivial = history "
         "contains a failing or limit-hitting call before another call")
@@ -40,6 +40,9 @@ CALLS = {
     "high-bytes": ("s", 'diag_log "\xff\xfe"', 0, ["\xff\xfe"]),
     "read-config": ("s", 'diag_log str [getNumber (configFile >> "ApiCfg" >> "v")]', 0, None),
     "pp-only": ("p", "#define A 7\nA", 0, []),
+    # macro definitions belong to the call that makes them: GV / ApiCfg below are plain names in every other call
+    "define-macro": ("s", '#define GV 9\n#define ApiCfg Nope\ndiag_log "dm"', 0, ["dm"]),
+    "pp-only-define": ("p", "#define GV 9\n#define diag_log hint\nGV", 0, []),
     "unknown-type": ("x", "1", -5, []),
     "assembly-bad": ("a", "this is not assembly", -3, []),
     "assembly-bad-char": ("a", "push 1 endStatement; ? $", -3, []),
